@@ -1,3 +1,577 @@
 package main
 
-func checkMain(args []string) int { return 2 }
+// `symgo check -prop C14 -tier quick`: run every harness registered for a
+// property, replay counterexamples natively, apply the known-findings file,
+// write evidence, print the verdict.
+
+import (
+	"bufio"
+	"crypto/sha256"
+	"encoding/json"
+	"flag"
+	"fmt"
+	"os"
+	"os/exec"
+	"path/filepath"
+	"regexp"
+	"sort"
+	"strconv"
+	"strings"
+	"time"
+
+	"golang.org/x/tools/go/packages"
+	"golang.org/x/tools/go/ssa"
+	"golang.org/x/tools/go/ssa/ssautil"
+
+	"verif/engine/interp"
+	"verif/engine/load"
+)
+
+// HarnessSpec registers one harness of a property.
+type HarnessSpec struct {
+	Name     string            `json:"name"`
+	Pkg      string            `json:"pkg"` // "./exec"
+	Tiers    []string          `json:"tiers"`
+	Labels   []string          `json:"labels"`  // must be reached (vacuity guard)
+	Stubs    map[string]string `json:"stubs"`   // callee -> harness function (short name, same package)
+	DropGo   []string          `json:"dropgo"`
+	NoOps    []string          `json:"noops"`
+	MaxDec   int               `json:"maxdec"`
+	MaxSteps int               `json:"maxsteps"`
+	MaxPaths int               `json:"maxpaths"`
+	TimeoutMs int              `json:"timeout_ms"`
+	Replay   string            `json:"replay"` // "native" (default) or "trace"
+	What     string            `json:"what"`
+	Bounds   map[string]string `json:"bounds"`
+	MayBeUnknown int           `json:"-"`
+}
+
+// PropSpec is /verif/checks/<id>.json.
+type PropSpec struct {
+	Property    string        `json:"property"`
+	Explanation string        `json:"explanation"`
+	Assumptions []string      `json:"assumptions"`
+	Outside     []string      `json:"outside_claim"`
+	Harnesses   []HarnessSpec `json:"harnesses"`
+}
+
+type knownFinding struct {
+	kind, prop, harness, label, text string
+}
+
+func readKnown(path string) []knownFinding {
+	f, err := os.Open(path)
+	if err != nil {
+		return nil
+	}
+	defer f.Close()
+	var out []knownFinding
+	re := regexp.MustCompile(`^(known|fixed):\s+property=(\S+)\s+(?:(\S+)\s+)?harness=(\S+)\s+label="([^"]*)"\s*(.*)$`)
+	sc := bufio.NewScanner(f)
+	for sc.Scan() {
+		line := strings.TrimSpace(sc.Text())
+		if line == "" || strings.HasPrefix(line, "#") {
+			continue
+		}
+		m := re.FindStringSubmatch(line)
+		if m == nil {
+			continue
+		}
+		out = append(out, knownFinding{kind: m[1], prop: m[2], harness: m[4], label: m[5], text: strings.TrimSpace(m[3] + " " + m[6])})
+	}
+	return out
+}
+
+func inTier(h HarnessSpec, tier string) bool {
+	if len(h.Tiers) == 0 {
+		return true
+	}
+	for _, t := range h.Tiers {
+		if t == tier {
+			return true
+		}
+	}
+	return false
+}
+
+type harnessReport struct {
+	Name        string            `json:"harness"`
+	What        string            `json:"what,omitempty"`
+	Bounds      map[string]string `json:"bounds,omitempty"`
+	Paths       int               `json:"paths"`
+	Killed      int               `json:"paths_infeasible"`
+	Obligations int               `json:"obligations"`
+	Discharged  int               `json:"discharged"`
+	Unknown     int               `json:"unknown"`
+	Queries     int               `json:"queries"`
+	SolverSec   float64           `json:"solver_s"`
+	WallSec     float64           `json:"wall_s"`
+	Labels      map[string]int    `json:"labels_reached"`
+	Stubs       []string          `json:"stubs"`
+	Status      string            `json:"status"`
+	Notes       []string          `json:"notes,omitempty"`
+}
+
+func checkMain(args []string) int {
+	fs := flag.NewFlagSet("check", flag.ExitOnError)
+	repo := fs.String("repo", "/repo", "repository under test")
+	verif := fs.String("verif", "/verif", "verification directory")
+	prop := fs.String("prop", "", "property id")
+	tier := fs.String("tier", "", "quick|thorough")
+	only := fs.String("only", "", "run only this harness (debugging)")
+	workers := fs.Int("workers", 0, "workers")
+	debug := fs.Bool("debug", false, "debug")
+	noEvidence := fs.Bool("no-evidence", false, "do not write the evidence file")
+	fs.Parse(args)
+	if *tier == "" {
+		*tier = os.Getenv("VERIF_TIER")
+	}
+	if *tier == "" {
+		*tier = "quick"
+	}
+	seed := 0
+	if s := os.Getenv("VERIF_SEED"); s != "" {
+		seed, _ = strconv.Atoi(s)
+	}
+	t0 := time.Now()
+	specPath := filepath.Join(*verif, "checks", *prop+".json")
+	b, err := os.ReadFile(specPath)
+	if err != nil {
+		fmt.Fprintln(os.Stderr, "symgo check:", err)
+		return 2
+	}
+	var spec PropSpec
+	if err := json.Unmarshal(b, &spec); err != nil {
+		fmt.Fprintln(os.Stderr, "symgo check:", specPath, err)
+		return 2
+	}
+	build := filepath.Join(*verif, "build", fmt.Sprintf("check-%s-%d", *prop, os.Getpid()))
+	defer os.RemoveAll(build)
+	env, err := load.Prepare(*repo, *verif, build)
+	if err != nil {
+		fmt.Fprintln(os.Stderr, "symgo check:", err)
+		return 2
+	}
+	var hs []HarnessSpec
+	pkgSet := map[string]bool{}
+	for _, h := range spec.Harnesses {
+		if !inTier(h, *tier) {
+			continue
+		}
+		if *only != "" && h.Name != *only {
+			continue
+		}
+		hs = append(hs, h)
+		pkgSet[h.Pkg] = true
+	}
+	var patterns []string
+	for p := range pkgSet {
+		patterns = append(patterns, p)
+	}
+	sort.Strings(patterns)
+	inconclusive := []string{}
+	prog, pkgs, err := env.Program(patterns)
+	if err != nil {
+		fmt.Println("INCONCLUSIVE: cannot load the repository with the harnesses: " + firstLines(err.Error(), 12))
+		writeEvidence(*verif, *prop, *tier, seed, &spec, nil, nil, nil, []string{"load failed: " + firstLines(err.Error(), 6)}, 0, 0, time.Since(t0).Seconds(), *noEvidence)
+		return 2
+	}
+	loadSec := time.Since(t0).Seconds()
+	known := readKnown(filepath.Join(*verif, "KNOWN_FINDINGS.txt"))
+	var reports []harnessReport
+	funcs := map[string]bool{}
+	var samples []interface{}
+	type confirmed struct {
+		v      *interp.Violation
+		replay string
+		kind   string
+	}
+	var newViolations []confirmed
+	knownSeen := map[string]bool{}
+	nontrivial := 0
+	totalPaths := 0
+	for _, h := range hs {
+		fn, sp := findHarness(prog, pkgs, h)
+		if fn == nil {
+			inconclusive = append(inconclusive, "harness not found: "+h.Name)
+			continue
+		}
+		cfg := defaultConfig(env.Module)
+		cfg.Workers = *workers
+		cfg.DebugPanics = *debug
+		cfg.MaxDecisions = h.MaxDec
+		cfg.MaxSteps = h.MaxSteps
+		cfg.MaxPaths = h.MaxPaths
+		cfg.QueryTimeoutMs = h.TimeoutMs
+		if cfg.QueryTimeoutMs == 0 {
+			if *tier == "thorough" {
+				cfg.QueryTimeoutMs = 60000
+			} else {
+				cfg.QueryTimeoutMs = 20000
+			}
+		}
+		cfg.DropGo = h.DropGo
+		cfg.NoOps = h.NoOps
+		cfg.Stubs = map[string]string{}
+		for k, v := range h.Stubs {
+			if !strings.Contains(v, ".") {
+				v = sp.Pkg.Path() + "." + v
+			}
+			cfg.Stubs[k] = v
+		}
+		res := interp.Explore(prog, fn, cfg)
+		fmt.Print(res.Summary())
+		rep := harnessReport{Name: h.Name, What: h.What, Bounds: h.Bounds, Paths: res.Paths, Killed: res.PathsKilled, Obligations: res.Obligations,
+			Discharged: res.Discharged, Unknown: res.Unknown, Queries: res.Queries, SolverSec: round2(res.SolverSec), WallSec: round2(res.WallSec), Labels: res.Labels, Status: "ok"}
+		for s := range res.Stubs {
+			rep.Stubs = append(rep.Stubs, s)
+		}
+		sort.Strings(rep.Stubs)
+		for f := range res.Funcs {
+			funcs[f] = true
+		}
+		nontrivial += res.NontrivialPaths
+		totalPaths += res.Paths
+		for _, s := range res.Samples {
+			if len(samples) < 8 {
+				samples = append(samples, map[string]string{"harness": h.Name, "discharged_obligation": s})
+			}
+		}
+		for _, u := range res.Unsupported {
+			rep.Notes = append(rep.Notes, "unsupported: "+u)
+		}
+		for _, u := range res.Budget {
+			rep.Notes = append(rep.Notes, "budget: "+u)
+		}
+		for _, u := range res.SolverErrs {
+			rep.Notes = append(rep.Notes, "solver: "+u)
+		}
+		if len(res.Unsupported) > 0 || len(res.Budget) > 0 || res.Unknown > 0 || len(res.SolverErrs) > 0 {
+			rep.Status = "inconclusive"
+			inconclusive = append(inconclusive, fmt.Sprintf("%s: unsupported=%d budget=%d unknown=%d solver-errors=%d", h.Name, len(res.Unsupported), len(res.Budget), res.Unknown, len(res.SolverErrs)))
+		}
+		for _, l := range h.Labels {
+			if res.Labels[l] == 0 {
+				rep.Status = "inconclusive"
+				rep.Notes = append(rep.Notes, "label not reached: "+l)
+				inconclusive = append(inconclusive, h.Name+": label not reached: "+l)
+			}
+		}
+		if res.Obligations == 0 {
+			rep.Status = "inconclusive"
+			inconclusive = append(inconclusive, h.Name+": no obligation was reached (vacuous)")
+		}
+		// violations: dedupe by label, replay.
+		seenLabel := map[string]bool{}
+		for _, v := range res.Violations {
+			if seenLabel[v.Label] {
+				continue
+			}
+			seenLabel[v.Label] = true
+			n := len(seenLabel)
+			rpath := filepath.Join(*verif, "replays", *prop, fmt.Sprintf("%s-%d.json", h.Name, n))
+			writeReplay(rpath, *prop, h, v)
+			kind := h.Replay
+			if kind == "" {
+				kind = "native"
+			}
+			ok, note := false, ""
+			if kind == "native" {
+				ok, note = nativeReplay(env, build, sp.Pkg.Path(), h, v, rpath, prog, pkgs)
+			} else {
+				ok, note = traceReplay(prog, fn, cfg, v)
+			}
+			if !ok {
+				rep.Status = "inconclusive"
+				rep.Notes = append(rep.Notes, fmt.Sprintf("ENGINE-DISAGREEMENT on %q: %s", v.Label, note))
+				inconclusive = append(inconclusive, fmt.Sprintf("%s: counterexample for %q did not reproduce (%s): %s", h.Name, v.Label, kind, note))
+				fmt.Printf("ENGINE-DISAGREEMENT harness=%s label=%q %s\n", h.Name, v.Label, note)
+				continue
+			}
+			isKnown := false
+			for _, k := range known {
+				if k.kind == "known" && k.prop == *prop && k.harness == h.Name && k.label == v.Label {
+					isKnown = true
+					key := k.harness + "|" + k.label
+					if !knownSeen[key] {
+						knownSeen[key] = true
+						fmt.Printf("KNOWN-FINDING: property=%s harness=%s label=%q %s\n", *prop, h.Name, v.Label, k.text)
+					}
+				}
+			}
+			if len(samples) < 12 {
+				samples = append(samples, map[string]interface{}{"harness": h.Name, "counterexample_for": v.Label, "inputs": v.Inputs, "known_finding": isKnown})
+			}
+			if !isKnown {
+				rep.Status = "violated"
+				newViolations = append(newViolations, confirmed{v, rpath, kind})
+			}
+		}
+		reports = append(reports, rep)
+	}
+	violations := len(newViolations)
+	for _, c := range newViolations {
+		fmt.Printf("VIOLATION property=%s replay=%s harness=%s label=%q replay-kind=%s\n", *prop, c.replay, c.v.Harness, c.v.Label, c.kind)
+	}
+	var fl []string
+	for f := range funcs {
+		fl = append(fl, f)
+	}
+	sort.Strings(fl)
+	fe := describeFuncs(prog, fl, *repo)
+	writeEvidence(*verif, *prop, *tier, seed, &spec, reports, fe, samples, inconclusive, violations, nontrivial, time.Since(t0).Seconds(), *noEvidence)
+	_ = loadSec
+	_ = totalPaths
+	if violations > 0 {
+		return 1
+	}
+	if len(inconclusive) > 0 {
+		for _, s := range inconclusive {
+			fmt.Println("INCONCLUSIVE:", s)
+		}
+		return 2
+	}
+	fmt.Printf("OK property=%s tier=%s harnesses=%d wall=%.1fs\n", *prop, *tier, len(reports), time.Since(t0).Seconds())
+	return 0
+}
+
+func round2(f float64) float64 { return float64(int(f*100)) / 100 }
+
+func firstLines(s string, n int) string {
+	ls := strings.Split(s, "\n")
+	if len(ls) > n {
+		ls = ls[:n]
+	}
+	return strings.Join(ls, "\n")
+}
+
+func findHarness(prog *ssa.Program, pkgs []*packages.Package, h HarnessSpec) (*ssa.Function, *ssa.Package) {
+	for _, p := range pkgs {
+		sp := prog.Package(p.Types)
+		if sp == nil {
+			continue
+		}
+		if fn := sp.Func(h.Name); fn != nil {
+			return fn, sp
+		}
+	}
+	return nil, nil
+}
+
+func writeReplay(path, prop string, h HarnessSpec, v *interp.Violation) {
+	os.MkdirAll(filepath.Dir(path), 0o755)
+	uf := map[string][]map[string]interface{}{}
+	for fn, rows := range v.UF {
+		for _, r := range rows {
+			uf[fn] = append(uf[fn], map[string]interface{}{"args": r[:len(r)-1], "ret": r[len(r)-1]})
+		}
+	}
+	kind := h.Replay
+	if kind == "" {
+		kind = "native"
+	}
+	doc := map[string]interface{}{
+		"property": prop, "harness": h.Name, "label": v.Label, "kind": v.Kind, "replay_kind": kind,
+		"inputs": v.Inputs, "uf": uf, "trace": v.Trace, "note": v.Detail,
+	}
+	b, _ := json.MarshalIndent(doc, "", " ")
+	os.WriteFile(path, b, 0o644)
+}
+
+// nativeReplay runs the harness under `go test` against the real build with
+// the model's values and reports whether the same assertion fails.
+func nativeReplay(env *load.Env, build, pkgPath string, h HarnessSpec, v *interp.Violation, rpath string, prog *ssa.Program, pkgs []*packages.Package) (bool, string) {
+	rel := strings.TrimPrefix(strings.TrimPrefix(pkgPath, env.Module), "/")
+	dir := filepath.Join(env.Repo, rel)
+	testFile := filepath.Join(build, "zz_replay_"+sanitizeName(rel)+"_test.go")
+	pkgName := ""
+	for _, p := range pkgs {
+		if p.PkgPath == pkgPath {
+			pkgName = p.Name
+		}
+	}
+	src := fmt.Sprintf(`//go:build verif
+
+package %s
+
+import (
+	"fmt"
+	"testing"
+
+	zz "%s/internal/zzverif"
+)
+
+func TestZZReplay(t *testing.T) {
+	f, esc, div := zz.RunNative(%s)
+	fmt.Printf("ZZREPLAY failures=%%q diverged=%%q escaped=%%v\n", f, div, esc)
+}
+`, pkgName, env.Module, h.Name)
+	if err := os.WriteFile(testFile, []byte(src), 0o644); err != nil {
+		return false, err.Error()
+	}
+	extra := map[string]string{filepath.Join(dir, "zz_replay_test.go"): testFile}
+	// hide the package's own tests: they are not needed and some do not
+	// build against the pinned dependency versions.
+	ents, _ := os.ReadDir(dir)
+	for _, e := range ents {
+		if strings.HasSuffix(e.Name(), "_test.go") {
+			extra[filepath.Join(dir, e.Name())] = ""
+		}
+	}
+	ov := filepath.Join(build, "overlay-replay.json")
+	if err := env.WriteOverlayJSON(ov, extra); err != nil {
+		return false, err.Error()
+	}
+	relPkg := "./" + rel
+	if rel == "" {
+		relPkg = "."
+	}
+	cmd := exec.Command("go", "test", "-tags=verif", "-modfile="+env.ModFile, "-overlay="+ov, "-vet=off", "-count=1", "-v", "-run", "^TestZZReplay$", "-timeout", "120s", relPkg)
+	cmd.Dir = env.Repo
+	cmd.Env = append(env.GoEnv(), "VERIF_REPLAY="+rpath)
+	out, err := cmd.CombinedOutput()
+	txt := string(out)
+	m := regexp.MustCompile(`ZZREPLAY failures=(\[.*?\]) diverged="(.*?)" escaped=(.*)`).FindStringSubmatch(txt)
+	if m == nil {
+		return false, "native replay produced no result: " + firstLines(txt, 8) + fmt.Sprint(err)
+	}
+	if m[2] != "" {
+		return false, "native run diverged from the model: " + m[2]
+	}
+	if v.Kind == "panic" {
+		if strings.TrimSpace(m[3]) != "<nil>" {
+			return true, "panic reproduced natively: " + m[3]
+		}
+		return false, "no panic natively"
+	}
+	if strings.Contains(m[1], strconv.Quote(v.Label)) {
+		return true, "assertion failed natively"
+	}
+	if strings.TrimSpace(m[3]) != "<nil>" {
+		return false, "native run panicked instead: " + m[3]
+	}
+	return false, "assertion held natively: " + m[1]
+}
+
+func sanitizeName(s string) string {
+	return strings.NewReplacer("/", "_", ".", "_").Replace(s)
+}
+
+// traceReplay re-executes the harness in the engine with every input pinned
+// to the model's value (no solver decisions left) and checks that the same
+// obligation fails concretely.
+func traceReplay(prog *ssa.Program, fn *ssa.Function, cfg *interp.Config, v *interp.Violation) (bool, string) {
+	c2 := *cfg
+	c2.Pinned = v.Inputs
+	c2.PinnedUF = v.UF
+	c2.Workers = 1
+	res := interp.Explore(prog, fn, &c2)
+	for _, v2 := range res.Violations {
+		if v2.Label == v.Label {
+			return true, "reproduced by concrete re-execution of the real code in the engine"
+		}
+	}
+	return false, fmt.Sprintf("concrete re-execution did not fail %q (paths=%d unsupported=%v)", v.Label, res.Paths, res.Unsupported)
+}
+
+type funcEvidence struct {
+	Name   string `json:"name"`
+	File   string `json:"file"`
+	Instrs int    `json:"ssa_instructions"`
+	SHA    string `json:"file_sha256,omitempty"`
+}
+
+func describeFuncs(prog *ssa.Program, names []string, repo string) []funcEvidence {
+	byName := map[string]*ssa.Function{}
+	for fn := range ssautilAllFunctions(prog) {
+		byName[fn.String()] = fn
+	}
+	shas := map[string]string{}
+	var out []funcEvidence
+	for _, n := range names {
+		fn := byName[n]
+		if fn == nil {
+			continue
+		}
+		pos := prog.Fset.Position(fn.Pos())
+		if !strings.HasPrefix(pos.Filename, repo+"/") || strings.Contains(pos.Filename, "zz_verif") || strings.Contains(pos.Filename, "zzverif") {
+			continue
+		}
+		cnt := 0
+		for _, b := range fn.Blocks {
+			cnt += len(b.Instrs)
+		}
+		sha, ok := shas[pos.Filename]
+		if !ok {
+			if b, err := os.ReadFile(pos.Filename); err == nil {
+				sha = fmt.Sprintf("%x", sha256.Sum256(b))[:16]
+			}
+			shas[pos.Filename] = sha
+		}
+		out = append(out, funcEvidence{Name: n, File: fmt.Sprintf("%s:%d", strings.TrimPrefix(pos.Filename, repo+"/"), pos.Line), Instrs: cnt, SHA: sha})
+	}
+	return out
+}
+
+func writeEvidence(verif, prop, tier string, seed int, spec *PropSpec, reports []harnessReport, funcs []funcEvidence, samples []interface{}, inconclusive []string, violations, nontrivial int, wall float64, skip bool) {
+	if skip {
+		return
+	}
+	obl, dis, paths, queries := 0, 0, 0, 0
+	solver := 0.0
+	stubs := map[string]bool{}
+	for _, r := range reports {
+		obl += r.Obligations
+		dis += r.Discharged
+		paths += r.Paths
+		queries += r.Queries
+		solver += r.SolverSec
+		for _, s := range r.Stubs {
+			stubs[s] = true
+		}
+	}
+	var sl []string
+	for s := range stubs {
+		sl = append(sl, s)
+	}
+	sort.Strings(sl)
+	if samples == nil {
+		samples = []interface{}{}
+	}
+	exhaustive := len(inconclusive) == 0 && violations == 0 && obl == dis && paths > 0
+	cov := map[string]interface{}{
+		"explanation": "bounded symbolic execution of the real functions from go/ssa (encoding regenerated from /repo on this run) with every obligation discharged by an SMT solver (z3) under the path condition; " +
+			"holds for every input inside the stated bounds, says nothing outside them; not a proof. " + spec.Explanation,
+		"obligations":         obl,
+		"discharged":          dis,
+		"evaluations":         paths,
+		"distinct_nontrivial": nontrivial,
+		"rule":                "one evaluation = one feasible execution path of a harness through the real code (distinct decision vector); non-trivial = the path ends normally and reaches at least one of the harness's vacuity labels",
+		"samples":             samples,
+		"exhaustive":          exhaustive,
+		"paths":               paths,
+		"queries":             queries,
+		"solver_s":            round2(solver),
+		"harnesses":           reports,
+		"functions_encoded":   funcs,
+		"stubs":               sl,
+		"outside_claim":       spec.Outside,
+		"inconclusive":        inconclusive,
+		"trusted_base":        []string{"go/ssa construction (x/tools v0.29.0)", "engine interpreter semantics (forked x/tools ssa/interp)", "z3 4.8.12", "dependency shims in /verif/shims"},
+	}
+	ev := map[string]interface{}{
+		"property_id": prop,
+		"tier":        tier,
+		"seed":        seed,
+		"level":       "other",
+		"coverage":    cov,
+		"assumptions": spec.Assumptions,
+		"wall_s":      round2(wall),
+		"violations":  violations,
+	}
+	b, _ := json.MarshalIndent(ev, "", " ")
+	os.MkdirAll(filepath.Join(verif, "evidence"), 0o755)
+	os.WriteFile(filepath.Join(verif, "evidence", prop+".json"), b, 0o644)
+}
+
+func ssautilAllFunctions(prog *ssa.Program) map[*ssa.Function]bool { return ssautil.AllFunctions(prog) }
